@@ -70,7 +70,7 @@ CHECKS['C03'] = {
     'unproved': ['evaluate arms FunctionCall (all functions), TypeConversion, Aggregate', 'parser_tree_converter lowering, projection naming'],
 }
 CHECKS['C09'] = {
-    'verus_units': ['eval', 'follow', 'select', 'engine', 'extract', 'parser', 'executor', 'aggregate'],
+    'verus_units': ['eval', 'follow', 'select', 'engine', 'extract', 'parser', 'executor', 'aggregate', 'join'],
     'only_safety': True,
     'clause_prefixes': ['c09'],
     'technique': 'contract-based deductive verification (Verus): absence of arithmetic overflow, division by zero, failed callee preconditions (unwrap, indexing, unreachable!) in every extracted function',
@@ -218,6 +218,18 @@ CHECKS['C15'] = {
     'explanation': 'lemma_math_sum_permutation is a full permutation-invariance proof over multisets; the other aggregates are shown commutative/associative at the step level.',
     'trusted': COMMON_TRUST + ['value_cmp total-preorder laws enter as hypotheses (established for scalars by C16)'],
     'unproved': ['PERCENTILE', 'group-set union across inputs (table assembly)'],
+}
+
+CHECKS['C05'] = {
+    'verus_units': ['join'],
+    'clause_prefixes': ['c05', 'row.'],
+    'technique': 'contract-based deductive verification (Verus): JoinedTableData::add_row / get_joined_row, execute_join and extend_option_result_row extracted from /repo; the index is a specified stand-in, the per-partner calls are tracked by ghost state and an in-body assertion',
+    'claim': 'Proof for all rows, indexes and join clauses that the partners of a queried row are exactly the rows of the joined file stored under a key EQUAL to its join value and not NULL, in joined-file order; that the statement is run once per partner in that order and every result row is kept in order; that a row without partner yields nothing for INNER (or where OUTER is not allowed) and exactly one run on an all-NULL partner for OUTER; that a missing join column is an error. NOT covered: loading the joined file (JoinedTableData::execute), name resolution / `*` order for joined rows (create_joined_column_mapping), ON a.x = b.y side resolution (transform_join).',
+    'note': 'Trusted: std HashMap<Value, Vec<Row>> as buckets of value-equal keys in insertion order (VRowIndex; relies on C16), TableDefinition::index_for, create_joined_column_mapping as a constructor stand-in, FnMut callback: Verus cannot relate results of successive FnMut calls to one closure value, so "rows of the output = results of the calls" is carried by ghost state inside the body (loop invariant + assertion), not by the postcondition.',
+    'level': 'proof',
+    'explanation': 'partners(data, key) is the spec from the property text; get_joined_row is proved equal to it; execute_join is proved to call the statement for exactly those rows.',
+    'trusted': COMMON_TRUST + ['std HashMap bucket semantics', 'create_joined_column_mapping / transform_join not extracted'],
+    'unproved': ['JoinedTableData::execute (file loading loop)', 'create_joined_column_mapping', 'transform_join'],
 }
 
 NOT_APPLICABLE = {
